@@ -84,7 +84,7 @@ func (c *Ctx) Known(key, what string) {
 		return
 	}
 	c.knownSeen[key] = true
-	fmt.Printf("KNOWN-FINDING: property=%s %s: %s\n", c.ID, key, what)
+	fmt.Printf("KNOWN-FINDING: property=%s %s: %s\n", c.ID, key, firstLine(what))
 }
 
 // Report is the single entry point for a reproduced disagreement with a
